@@ -20,11 +20,20 @@ for ID in $IDS; do
   COOLER_REPO=$WT VERIF_OUT=$OUT/o ./check $P quick > $OUT/$ID.txt 2>&1; EC=$?
   echo "$ID exit=$EC$ONBASE $(tail -1 $OUT/$ID.txt | cut -c1-100)"
   [ -n "$ONBASE" ] && git -C $WT checkout -q . && git -C $WT checkout -q --detach $(git -C /repo rev-parse HEAD)
+  if [ $EC -eq 0 ] && [ -f /verif/seeded/$ID/demo.py ]; then
+    # not caught: does the change still break anything on this tree? (a later fix: commit may have neutralised it)
+    /venv/bin/python /verif/seeded/$ID/demo.py $WT > $OUT/$ID.demo.txt 2>&1; DEC=$?
+    if [ $DEC -eq 0 ]; then echo "\"$ID\": \"neutralised on HEAD by a later fix (its own demonstration passes); kept on its base\"," >> $OUT/res.txt; continue; fi
+  fi
   echo "\"$ID\": $EC," >> $OUT/res.txt
 done
 echo "\"_head\": \"$(git -C /repo rev-parse --short HEAD)\"}" >> $OUT/res.txt
 python3 -c "
 import json,re
 s=open('$OUT/res.txt').read()
-json.dump(json.loads(s), open('/verif/seeded/regression.json','w'), indent=1, sort_keys=True)"
+new=json.loads(s)
+try: old=json.load(open('/verif/seeded/regression.json'))
+except Exception: old={}
+old.update(new)
+json.dump(old, open('/verif/seeded/regression.json','w'), indent=1, sort_keys=True)"
 git -C /repo worktree remove --force $WT
